@@ -155,7 +155,7 @@ func otherKinds(rng *vhlib.Rng) []kind {
 			if v == 0 {
 				return nil
 			}
-			switch r.Intn(3) {
+			switch ((v % 3) + 3) % 3 { // the representation is part of the content: a function of the class; always freshly allocated
 			case 0:
 				return []int{v, v + 1}
 			case 1:
@@ -183,9 +183,17 @@ func otherKinds(rng *vhlib.Rng) []kind {
 			return badClass
 		},
 	}
-	str := codec[string]{
-		enc: func(v int) string { return strings.Repeat("ab", v) },
+	str := codec[string]{ // total on every int: classes outside 0..4 (searched for, never stored) get their own strings
+		enc: func(v int) string {
+			if v < 0 {
+				return "n" + strings.Repeat("ab", -v)
+			}
+			return strings.Repeat("ab", v)
+		},
 		dec: func(s string) int {
+			if strings.HasPrefix(s, "n") && s[1:] == strings.Repeat("ab", len(s)/2) {
+				return -(len(s) / 2)
+			}
 			if s != strings.Repeat("ab", len(s)/2) {
 				return badClass
 			}
